@@ -37,7 +37,9 @@ RULE = ("class hierarchies (1-3 levels of single inheritance, fresh classes per 
         "...) chosen to collide under upper()/camelCase; valid instances with optional fields absent with p in "
         "{0.2,0.5,0.8}; camel_case_convert on/off; use_strict_mapping on/off; explicit mapper= (22%, of which 30% "
         "with a non-field key) to Serializer and Deserializer; plus the identity-keyed document through the "
-        "Deserializer (fallback / strict behaviour); 40% of the cases carry a HISTORY of 1-3 earlier calls in the same "
+        "Deserializer (fallback / strict behaviour); 15% of the cases deserialize through deserialize_structure(..., "
+        "keep_undefined=False); a stream of class trees in which some classes set _additional_properties / "
+        "_additionalProperties = False (on the class or on a base level, outer and/or nested); 40% of the cases carry a HISTORY of 1-3 earlier calls in the same "
         "process on the same class objects (same class with the other / same camel flag, same / other override, "
         "a nested class serialized on its own first), plus a directed stream of [camel, plain, camel] and [plain, "
         "camel] histories per class (process-wide cache aggregated_mapper_by_class); every call of a history is "
@@ -47,6 +49,8 @@ ASSUMPTIONS = [
     "rename-only mappers: no FunctionCall / Constant values, no Map-nested structures, no _deserialization_mapper, single inheritance",
     "scalar fields are Integer fields; Set[...] fields are compared order-insensitively; default class options (additional properties allowed, no compact form)",
     "PYTHONHASHSEED=0 (the order of instance attributes, which decides the winner of a key collision, comes from the constructor signature)",
+    "entry points: Deserializer(cls, ...).deserialize(doc) with its default keep_undefined, and deserialize_structure(..., keep_undefined=False); deserialize_structure's default keep_undefined=True deliberately keeps every key that is not a field name, mapped keys included (pinned by typedpy's test_custom_mapper_keeps_undefined_attributes), so it is not an entry point of the round-trip claim",
+    "undefined-key handling (_additional_properties=False, keep_undefined) is not in the Lean model: for class trees containing a closed class the deserialization half is judged by the oracle only",
     "round trip demanded only where: no populated field is dropped (an instance with a populated DoNotSerialize field is never judged for round trip), populated keys distinct and not equal to an absent field's key, no dotted key — at every level",
 ]
 
@@ -121,10 +125,17 @@ def judge_call(cd, case, impl, model, hist):
     hyp = model["hyp"]
     if hyp["dom"] and "deser" in impl:
         r = impl["deser"]
-        good = "ok" in r and r.get("equal") and S.canon_inst(r["ok"], cd) == S.canon_inst(impl["inst_canon"], cd)
+        good = ("ok" in r and r.get("equal") and not r.get("extras")
+                and S.canon_inst(r["ok"], cd) == S.canon_inst(impl["inst_canon"], cd))
         if not good:
             # dom and not rt  <=>  Sync fails at some (necessarily nested) level
             key = "roundtrip:unexplained" if hyp["rt"] else "nested-resync"
+            if hyp["rt"] and S.closed(cd) and case.get("entry", "Deserializer") == "Deserializer":
+                # sites in the choice of extra kwargs (deserialize_structure_internal / Deserializer.deserialize)
+                if r.get("extras"):
+                    key = "keep-undefined-leak:Deserializer-closed-outer"
+                elif "err" in r and "non-field" in r.get("msg", ""):
+                    key = "inherited-closed-class-rejects-mapped-key:deserialize_structure_internal"
             fails.append((key, "deserialize(serialize(x)) != x: document " + json.dumps(real_doc)[:200] + " gave "
                           + json.dumps(r)[:300] + " for instance " + json.dumps(case["kw"])[:200]
                           + " mappers " + json.dumps([lv["mapper"] for lv in cd["levels"]])[:300] + hist))
